@@ -323,7 +323,7 @@ func RuleFilter(r *Report, p *Program, rules aspectSet) {
 		} else {
 			w3 := NewWalker(p)
 			w3.ForceBool = true
-			w3.Inline = func(f *ssa.Function, d int) bool { return false }
+			w3.Inline = inlineHelpers([]*ssa.Package{p.SSAPkg("uhppote")}, func(f *ssa.Function) bool { return a.Senders[f] != "" })
 			ok := true
 			detail := ""
 			paths := w3.Walk(clos.Fn, []*Term{{Op: "param", Name: "dg", Typ: clos.Fn.Params[0].Type()}}, clos.Args)
@@ -621,10 +621,7 @@ func RuleBroadcastHelper(r *Report, p *Program) {
 	w := NewWalker(p)
 	w.LoopFuel = N + 2
 	up := p.SSAPkg("uhppote")
-	w.Inline = func(f *ssa.Function, d int) bool {
-		return f.Parent() != nil || (f.Pkg == up && a.Senders[f] == "" && f.Signature.Recv() != nil && len(f.Blocks) <= 8)
-	}
-	w.Opaque["(*uhppote.uhppote).debugf"] = true
+	w.Inline = inlineHelpers([]*ssa.Package{up}, func(f *ssa.Function) bool { return a.Senders[f] != "" })
 	w.OnCall = func(w *Walker, name string, args []*Term, c *ssa.CallCommon, in ssa.Instruction) (*Term, bool) {
 		if !c.IsInvoke() || driverKind(c.Method.Type().(*types.Signature)) != "broadcast-all" {
 			return nil, false
@@ -643,7 +640,15 @@ func RuleBroadcastHelper(r *Report, p *Program) {
 		w.event(Event{Kind: "call", Name: "transport:broadcast-all", Args: args, Pos: in.Pos(), Instr: in})
 		return &Term{Op: "tuple", Args: []*Term{sl, errT}}, true
 	}
-	args := []*Term{{Op: "param", Name: "u", Typ: fn.Params[0].Type()}, {Op: "param", Name: "request", Typ: fn.Params[1].Type()}, {Op: "param", Name: "proto", Typ: fn.Params[2].Type()}}
+	args := make([]*Term, len(fn.Params))
+	for i, prm := range fn.Params {
+		nm := []string{"u", "request", "proto"}
+		n := prm.Name()
+		if i < len(nm) {
+			n = nm[i]
+		}
+		args[i] = &Term{Op: "param", Name: n, Typ: prm.Type()}
+	}
 	paths := w.Walk(fn, args, nil)
 	bad := ""
 	nOK := 0
